@@ -1,6 +1,149 @@
 package main
 
+import (
+	"encoding/json"
+	"fmt"
+	"os"
+	"os/exec"
+	"path/filepath"
+	"strconv"
+)
+
+// labInfo summarises a built lab for the evidence file.
+type labInfo struct {
+	Kind     string
+	Dir      string
+	Bin      string
+	Programs int
+	Usable   int
+	Skipped  []map[string]string
+}
+
+func buildLabgen(tmp string) (string, error) {
+	out := filepath.Join(tmp, "labgen")
+	if _, err := os.Stat(out); err == nil {
+		return out, nil
+	}
+	cmd := exec.Command("go", "build", "-tags", "verif", "-o", out, "./harness/labgen")
+	cmd.Dir = root
+	if b, err := cmd.CombinedOutput(); err != nil {
+		return "", fmt.Errorf("building labgen failed (does /repo build?): %v\n%s", err, b)
+	}
+	return out, nil
+}
+
+// buildLab generates the lab of the given kind and compiles its driver test binary.
+func buildLab(kind string, programs int, seed int64, tmp string, replay string, env []string) (*labInfo, error) {
+	lg, err := buildLabgen(tmp)
+	if err != nil {
+		return nil, err
+	}
+	dir := filepath.Join(tmp, "lab-"+kind)
+	args := []string{"-out", dir, "-kind", kind, "-seed", strconv.FormatInt(seed, 10), "-programs", strconv.Itoa(programs)}
+	if replay != "" {
+		args = append(args, "-replay", replay)
+	}
+	cmd := exec.Command(lg, args...)
+	cmd.Dir = root
+	cmd.Env = append(os.Environ(), env...)
+	if b, err := cmd.CombinedOutput(); err != nil {
+		return nil, fmt.Errorf("labgen failed: %v\n%s", err, b)
+	}
+	info := &labInfo{Kind: kind, Dir: dir, Bin: filepath.Join(tmp, "lab-"+kind+".test")}
+	if b, err := os.ReadFile(filepath.Join(dir, "manifest.json")); err == nil {
+		var es []struct {
+			ID       string `json:"id"`
+			GenErr   string `json:"gen_err"`
+			BuildErr string `json:"build_err"`
+		}
+		if json.Unmarshal(b, &es) == nil {
+			info.Programs = len(es)
+			for _, e := range es {
+				if e.GenErr == "" && e.BuildErr == "" {
+					info.Usable++
+				} else {
+					why := e.GenErr
+					if why == "" {
+						why = "generated Go does not build: " + e.BuildErr
+					}
+					if len(why) > 300 {
+						why = why[:300] + "…"
+					}
+					info.Skipped = append(info.Skipped, map[string]string{"program": e.ID, "reason": why})
+				}
+			}
+		}
+	}
+	if info.Usable == 0 {
+		return info, fmt.Errorf("no program of the lab could be generated and built (%d tried)", info.Programs)
+	}
+	tc := exec.Command("go", "test", "-c", "-tags", "verif", "-vet=off", "-o", info.Bin, "./drv")
+	tc.Dir = dir
+	if b, err := tc.CombinedOutput(); err != nil {
+		return info, fmt.Errorf("building the lab driver failed: %v\n%s", err, b)
+	}
+	return info, nil
+}
+
 func replayLab(plan Plan, u Unit, path, tmp string) int {
-	fatal2("lab replay not implemented yet")
-	return 2
+	info, err := buildLab(u.Lab.Kind, 1, 1, tmp, path, u.Env)
+	if err != nil {
+		fmt.Fprintf(os.Stderr, "vcheck: replay lab: %v\n", err)
+		// a program that no longer generates / builds is itself worth reporting
+		fmt.Printf("VIOLATION property=%s replay=%s\n", plan.ID, path)
+		return 1
+	}
+	run := exec.Command(info.Bin, "-test.run", "^TestReplay$", "-test.v", "-test.timeout", "10m")
+	run.Dir = tmp
+	run.Env = append(os.Environ(), "VERIF_REPLAY="+path, "VERIF_SCRATCH="+tmp, "VERIF_PROPERTY="+plan.ID)
+	run.Env = append(run.Env, u.Env...)
+	o, err := run.CombinedOutput()
+	os.Stdout.Write(o)
+	if err != nil {
+		fmt.Printf("VIOLATION property=%s replay=%s\n", plan.ID, path)
+		return 1
+	}
+	fmt.Printf("%s replay passed: %s\n", plan.ID, path)
+	return 0
+}
+
+// regressLabs re-runs every saved case under regress/<id>/ of a lab property.
+func regressLabs(plan Plan, tmp string) []shardResult {
+	var labUnit *Unit
+	for i := range plan.Units {
+		if plan.Units[i].Lab != nil {
+			labUnit = &plan.Units[i]
+			break
+		}
+	}
+	if labUnit == nil {
+		return nil
+	}
+	files, _ := filepath.Glob(filepath.Join(root, "regress", plan.ID, "*.json"))
+	var out []shardResult
+	for i, f := range files {
+		sub := filepath.Join(tmp, fmt.Sprintf("regress-%d", i))
+		os.MkdirAll(sub, 0o755)
+		res := shardResult{unit: Unit{Name: "regress:" + filepath.Base(f)}}
+		info, err := buildLab(labUnit.Lab.Kind, 1, 1, sub, f, labUnit.Env)
+		if err != nil {
+			res.exit = 1
+			res.log = []byte("regress lab for " + f + ": " + err.Error() + "\nfatal error: lab of a saved case no longer builds")
+			out = append(out, res)
+			continue
+		}
+		statsPath := filepath.Join(sub, "stats.json")
+		run := exec.Command(info.Bin, "-test.run", "^TestReplay$", "-test.v", "-test.timeout", "10m")
+		run.Dir = sub
+		run.Env = append(os.Environ(), "VERIF_REPLAY="+f, "VERIF_SCRATCH="+sub, "VERIF_PROPERTY="+plan.ID, "VERIF_STATS="+statsPath)
+		run.Env = append(run.Env, labUnit.Env...)
+		o, err := run.CombinedOutput()
+		res.log = o
+		if err != nil {
+			res.exit = 1
+			res.failures = []string{f}
+		}
+		out = append(out, res)
+	}
+	return out
 }
